@@ -36,7 +36,7 @@ type Fault struct {
 }
 
 // FaultKinds is the palette of non-EOF errors real deployments meet.
-var FaultKinds = []string{"", "", "unexpected-eof", "timeout", "closed-pipe", "path-error", "no-progress"} // no EINTR: a reader may legitimately retry it
+var FaultKinds = []string{"", "", "unexpected-eof", "timeout", "closed-pipe", "path-error", "no-progress", "wraps-eof"} // no EINTR: a reader may legitimately retry it
 
 // Err returns the error value the fault injects.
 func (f *Fault) Err() error {
@@ -53,6 +53,9 @@ func (f *Fault) Err() error {
 		return syscall.EINTR // Temporary() == true
 	case "no-progress":
 		return io.ErrNoProgress
+	case "wraps-eof":
+		// not io.EOF (Read must return EOF itself, callers test with ==), but io.EOF is in its chain
+		return &fs.PathError{Op: "read", Path: "sim", Err: io.EOF}
 	}
 	return ErrInjected
 }
